@@ -25,6 +25,9 @@ CASE_TIMEOUT = {"quick": 40, "thorough": 120}
 RARE_CFG = 0.1     # share of cases run under rarely used option values (same results expected)
 
 
+ISO_INPUT = 0.05    # share of cases with an additional isolated free input
+
+
 def budget(tier):
     return 1200 if tier == "quick" else 12000
 
@@ -44,6 +47,10 @@ def gen_case(rng, tier, k):
         case["cfg"] = {"attractor_candidates_limit": rng.choice([1, 1, 2, 3]),
                        "retained_set_optimization_threshold": rng.choice([0, 0, 1, 2])}
         case["ops"] = prefix[:2] + ([["blockx", True, None, rng.random() < 0.5, rng.random() < 0.3]] if rng.random() < 0.6 else [])
+        if rng.random() < 0.35:
+            # skip nodes under the forced fallback
+            case["ops"] = [rng.choice([["bfs", 0, rng.choice([0, 1]), None], ["one", 0], ["min", 0, rng.randint(1, 4), False]]),
+                           rng.choice([["skiprem"], ["skipmin", rng.randrange(64)], ["skiprem"]])]
         case["fallback"] = True
         case["queries"] = [[a, rng.choice([m, "seedsfb-sets", "seedsfb-sets-ro"])] for a, m in case["queries"]]
     return case
@@ -129,6 +136,9 @@ def run_case(case):
                     fidx.append(a)
                     if not orc.inside(orc.atts[a], ni.sp(obs["space"])):
                         fails.append({"kind": "fallback-outside-node", "sig": {}, "detail": f"node {i}: attractor {a}"})
+                    if any(orc.inside(orc.atts[a], ni.sp(x)) for x in obs["succ"]):
+                        fails.append({"kind": "fallback-reports-successor-attractor", "sig": {"skipped": obs["skipped"]}, "detail":
+                                      f"node {i} ({ni.sp(obs['space'])}): attractor {a} lies inside a successor's space"})
             if not obs["skipped"]:
                 model = orc.get(("fb", q))
                 impl = " / ".join(sorted(",".join(x) for x in fsets))
